@@ -36,7 +36,7 @@ class C06(Prop):
     modelled = "convex.py: _range_of_solutions (subset/pattern enumeration, exact acceptance, running min/max), gate/fallback contract of range_of_solutions; _spaced_solutions only through its results"
 
     def sizes(self, tier):
-        return 110 if tier == "quick" else 2000
+        return 180 if tier == "quick" else 3000
 
     def gen(self, rng, n, tier):
         cases = []
@@ -44,31 +44,44 @@ class C06(Prop):
             m = rng.randint(2, 4); surplus = rng.randint(1, 3)
             sys = gs.gen_system(rng, mrange=(m, m), nrange=(m + surplus, m + surplus), finite_ub=True)
             nn = sys["n"]
+            dep = ib = False
+            if rng.random() < 0.2:
+                # linearly dependent sources: one LED twice, at half or double power
+                A2 = np.array(sys["A"], dtype=float); j1, j2 = rng.sample(range(nn), 2); A2[:, j2] = A2[:, j1] * rng.choice([0.5, 1.0, 2.0])
+                if gs.well_scaled(A2, sys["lb"], sys["ub"], sys["K"], sys["baseline"]):
+                    sys = dict(sys, A=A2); dep = True
+            if rng.random() < 0.25:
+                # whole-number bounds, handed over as integer arrays
+                lb2 = np.zeros(nn); ub2 = np.array([float(rng.randint(2, 9)) for _ in range(nn)])
+                if gs.well_scaled(sys["A"], lb2, ub2, sys["K"], sys["baseline"]):
+                    sys = dict(sys, lb=lb2, ub=ub2); ib = True
             lb, ub = sys["lb"], sys["ub"]
-            tk = rng.choice(["inside", "inside", "face", "edge", "vertex", "outside", "outside-ignore"])
+            tk = rng.choice(["inside", "inside", "face", "edge", "edge", "vertex", "outside", "outside-ignore"])
             x = np.array([lb[i] + (ub[i] - lb[i]) * rng.randint(2, 14) / 16 for i in range(nn)])
             if tk in ("face", "edge", "vertex"):
                 k = {"face": 1, "edge": max(1, nn - m + 0), "vertex": nn}[tk]
                 if tk == "edge":
                     k = min(nn, nn - m + 1 + rng.randint(0, 1))
                 for i in rng.sample(range(nn), k):
-                    x[i] = rng.choice([lb[i], ub[i]])
+                    x[i] = lb[i] if rng.random() < 0.65 else ub[i]      # pinned sources mostly switched off (at a zero lower bound: exact-zero comparisons)
             b = gs.rel_capture(sys, x)
             if tk.startswith("outside"):
                 b = b + np.array([rng.choice([-1, 1]) * rng.randint(8, 40) / 4 for _ in range(m)])
             nsp = rng.randint(2, 10) if (rng.random() < 0.35 and surplus <= 2) else None
             cases.append({"sys": {k_: (v.tolist() if isinstance(v, np.ndarray) else v) for k_, v in sys.items()},
                           "b": b.tolist(), "x": x.tolist(), "tk": tk, "nsp": nsp, "error": "ignore" if tk == "outside-ignore" else "raise",
-                          "entry": rng.choice(["estimator", "function"]),
+                          "entry": rng.choice(["estimator", "function"]), "dep": dep, "ib": ib,
                           "extra": ([gs.rel_capture(sys, np.array([lb[i] + (ub[i] - lb[i]) * rng.randint(3, 13) / 16 for i in range(nn)])).tolist()
                                      for _ in range(rng.randint(1, 2))] if (rng.random() < 0.4 and not tk.startswith("outside")) else []),
-                          "kind": "%s/surplus%d/K-%s/lb-%s/%s" % (tk, surplus, sys["Kkind"], "zero" if not np.any(lb) else "pos", "spaced" if nsp else "ends")})
+                          "kind": "%s/surplus%d/K-%s/lb-%s/%s" % (tk, surplus, sys["Kkind"], "zero" if not np.any(lb) else "pos", "spaced" if nsp else "ends") + ("/dep" if dep else "") + ("/intbounds" if ib else "")})
         return cases
 
     def run_impl(self, case):
         import dreye
         from p_C04 import C04
         sys = C04.sysnp(case)
+        if case.get("ib"):
+            sys = dict(sys, lb=sys["lb"].astype(int), ub=sys["ub"].astype(int))
         B = np.asarray(case["b"], dtype=float)
         kw = {"error": case["error"]}
         if case["nsp"]:
@@ -160,7 +173,7 @@ class C06(Prop):
         if "error" in out:
             return {"what": "range_of_solutions raised %s for a%s target on/in the gamut (%s): %s" % (
                 out["error"], "n" if p["expect"] == 0 else " out-of-gamut (error=ignore)", tk, out.get("msg", "")[:120]),
-                "class": "raises:%s:%s" % (out["error"], tk)}
+                "class": "raises:%s:%s%s" % (out["error"], tk, ":dependent-sources" if case.get("dep") else "")}
         mn, mx = np.asarray(out["Xmin"]), np.asarray(out["Xmax"])
         if p["expect"] == 2:
             if np.max(np.abs(mn - mx)) > 1e-9 or np.any(mn < lb - 1e-2 * (ub - lb)) or np.any(mn > ub + 1e-2 * (ub - lb)):
